@@ -1214,13 +1214,11 @@ class t2grid(object):
 
         if fix_blocknames: mapping = fix_block_mapping(blockmap)
 
+        renamed = [blk for blk in self.blocklist if blk.name in blockmap]
+        for blk in renamed: del self.block[blk.name]
         for blk in self.blocklist:
             name = blk.name
-            if name in blockmap:
-                del self.block[name]
-                mapped_name = blockmap[name]
-                self.block[mapped_name] = blk
-                blk.name = mapped_name
+            if name in blockmap: blk.name = blockmap[name]
             cons = set()
             for names in list(blk.connection_name):
                 con = []
@@ -1229,6 +1227,7 @@ class t2grid(object):
                     con.append(mapped_name)
                 cons.add(tuple(con))
             blk.connection_name = cons
+        for blk in renamed: self.block[blk.name] = blk
 
         self.connection = {}
         for con in self.connectionlist:
